@@ -279,6 +279,11 @@ def ldsem_fidelity(L, info, driver, script):
         return None     # symbols read before their assignment have not settled after three evaluations
     bad = []
     n = 0
+    # the hypothesis of the whole-script theorems (Props/Final.lean, C04.final_rom_symbols): the script assigns each
+    # ROM symbol of an emitted segment once
+    twice = set(ans.get("assigned_twice", []))
+    rom = {s[k] for s in emitted(info) for k in ("rom_start", "rom_end")}
+    driver.last_final_hyp = "assigned-once" if not (twice & rom) else "assigned-twice"
     for name, v in ans["syms"].items():
         if name in FIXED_SYMS or name == ".":
             continue
